@@ -361,11 +361,13 @@ def strLe : Str → Str → Bool
 def importLine (p : Str × Str) : Str :=
   Tables.importPre ++ p.1 ++ Tables.importMid ++ p.2 ++ Tables.importPost
 
-/-- insert into a list sorted by line, dropping a pair whose line is already there -/
+/-- insert into a list sorted by line, dropping a pair that is already there
+(the code keeps a *set of lines*; for module and class names, which contain
+no blanks, two pairs give the same line only when they are the same pair) -/
 def insertImport (p : Str × Str) : List (Str × Str) → List (Str × Str)
   | [] => [p]
   | q :: qs =>
-    if importLine p == importLine q then q :: qs
+    if p == q then q :: qs
     else if strLe (importLine p) (importLine q) then p :: q :: qs
     else q :: insertImport p qs
 
